@@ -1,9 +1,11 @@
 #!/bin/bash
 # detection matrix: every candidate seeded change x (its own property's check + the checks of neighbouring properties)
-out=/verif/work/matrix.log
+MUTDIR=${MUTDIR:-/verif/work/mutkeep}
+out=${OUT:-/verif/work/matrix.log}
+OWN_ONLY=${OWN_ONLY:-0}
 : > $out
 declare -A extra=( [C01]="C13" [C02]="C16" [C03]="C05 C04" [C04]="C14" [C05]="C06 C03" [C06]="C13 C09" [C07]="C03 C14" [C08]="C13 C09" [C09]="C06 C04" [C10]="C03" [C11]="C13" [C12]="C14" [C13]="C06" [C14]="C12 C07" [C15]="C02" [C16]="C02" [C17]="" [C18]="" )
-for d in /verif/work/mutkeep/C*; do
+for d in $MUTDIR/C*; do
   id=$(basename $d)
   for v in a b; do
     [ -f $d/$v.diff ] || continue
@@ -12,7 +14,7 @@ for d in /verif/work/mutkeep/C*; do
     find . -name '*.orig' -delete
     cd /verif
     line="$id$v:"
-    for p in $id ${extra[$id]}; do
+    for p in $id $( [ "$OWN_ONLY" = 1 ] || echo ${extra[$id]} ); do
       n=$(./check $p 2>/dev/null | grep -c '^VIOLATION')
       line="$line $p=$n"
     done
